@@ -38,6 +38,9 @@ Inductive scmd :=
 | SRedrawSig           (* self.redraw(): enqueue RenderScreenSignal(self) *)
 | SSchedRedraw         (* scheduler.redraw() *)
 | SRaise | SExit | SForceQuit
+| SSysExit             (* sys.exit(1) from a callback (ErrorDialog.input does it) *)
+| SRedrawOther (s : nat)   (* screens[s].redraw(): a render signal whose source is ANOTHER screen *)
+| SCloseOther (s : nat)    (* screens[s].close(): a close signal whose source is another screen *)
 | SGetUserInput        (* self.get_user_input(...): blocking *)
 | SSetInputRequired (b : bool)
 | SSetAnswer (a : answer)
@@ -55,12 +58,13 @@ Record screen_spec := {
   sc_input_required : bool;
   sc_no_separator : bool;
   sc_skip_check : bool;            (* input_manager.skip_concurrency_check *)
-  sc_pages : nat                   (* "press ENTER to continue" prompts its content needs *)
+  sc_pages : nat;                  (* "press ENTER to continue" prompts its content needs *)
+  sc_answer0 : answer              (* the screen's `answer` attribute before any callback ran (quit dialogs) *)
 }.
 Definition default_spec : screen_spec :=
   {| sc_setup := []; sc_refresh := []; sc_show := []; sc_closed := []; sc_input := [];
      sc_input_default := ([], None); sc_prompt_none := false; sc_input_required := true;
-     sc_no_separator := false; sc_skip_check := false; sc_pages := 0 |}.
+     sc_no_separator := false; sc_skip_check := false; sc_pages := 0; sc_answer0 := AnsNoAttr |}.
 
 (* ---- state of the screen layer ---- *)
 Record sdata := { sd_id : nat; sd_scr : nat; sd_args : nat; sd_modal : bool }.     (* ScreenData; args: an id, 0 = None *)
@@ -99,7 +103,7 @@ Record sstate := {
 
 Definition scr0 (sp : screen_spec) : scrst :=
   {| ss_ready := false; ss_input_required := sc_input_required sp; ss_err := 0; ss_input_args := 0;
-     ss_answer := AnsNoAttr; ss_n_setup := 0; ss_n_refresh := 0; ss_n_show := 0; ss_n_input := 0; ss_n_closed := 0 |}.
+     ss_answer := sc_answer0 sp; ss_n_setup := 0; ss_n_refresh := 0; ss_n_show := 0; ss_n_input := 0; ss_n_closed := 0 |}.
 
 Definition sprog := prog sstate.
 
@@ -255,6 +259,9 @@ Section Screens.
     | SRaise => PThrow XError
     | SExit => PThrow XExit
     | SForceQuit => PApi AForceQuit
+    | SSysExit => PThrow XSysExit
+    | SRedrawOther s => PApi (AEnqueue (render_spec (Some s)))
+    | SCloseOther s => PApi (AEnqueue (close_spec s))
     | SGetUserInput => get_input_blocking self
     | SSetInputRequired b => wr (upd_scr self (fun s => s <| ss_input_required := b |>))
     | SSetAnswer a => wr (upd_scr self (fun s => s <| ss_answer := a |>))
